@@ -8,14 +8,15 @@ git -C /repo worktree remove --force $WT 2>/dev/null
 git -C /repo worktree add -q --detach $WT HEAD || exit 2
 cd $WT
 cp "$SD/demo_test.go" zz_seeded_demo_test.go
+TAGS=""; grep -q "^//go:build verif" zz_seeded_demo_test.go && TAGS="-tags verif"   # a demonstration may drive the package's own server through the verif hooks
 RUN=$(grep -o 'func Test[A-Za-z0-9_]*' zz_seeded_demo_test.go | sed 's/func //' | paste -sd'|')
 echo "== demo tests: $RUN"
 echo "== demo on original tree"
-GOFLAGS=-mod=mod GOPROXY=off go test -vet=off -count=1 -run "^($RUN)\$" . > /tmp/confirm_$NAME.orig.log 2>&1; ORIG=$?
+GOFLAGS=-mod=mod GOPROXY=off go test $TAGS -vet=off -count=1 -run "^($RUN)\$" . > /tmp/confirm_$NAME.orig.log 2>&1; ORIG=$?
 tail -3 /tmp/confirm_$NAME.orig.log
 git apply "$SD/patch.diff" || { echo "PATCH DOES NOT APPLY"; cd /; git -C /repo worktree remove --force $WT; exit 2; }
 echo "== demo with patch"
-GOFLAGS=-mod=mod GOPROXY=off go test -vet=off -count=1 -run "^($RUN)\$" . > /tmp/confirm_$NAME.mut.log 2>&1; MUT=$?
+GOFLAGS=-mod=mod GOPROXY=off go test $TAGS -vet=off -count=1 -run "^($RUN)\$" . > /tmp/confirm_$NAME.mut.log 2>&1; MUT=$?
 tail -5 /tmp/confirm_$NAME.mut.log
 rm zz_seeded_demo_test.go
 echo "== suite with patch"
